@@ -64,9 +64,8 @@ type Stats struct {
 
 type item struct {
 	devs []vrt.Dev
+	cost int // deviations charged so far (free choices cost nothing)
 }
-
-func cost(d []vrt.Dev) int { return len(d) }
 
 // Explore runs the search. run must be safe for concurrent use (each call builds fresh objects).
 func Explore(cfg Config, run RunFunc) *Stats {
@@ -100,21 +99,22 @@ func Explore(cfg Config, run RunFunc) *Stats {
 			from = it.devs[n-1].Pos + 1
 		}
 		if s.ReplayDivergence == "" && s.NativeBlock == "" {
-			if cfg.Bound >= 0 && cost(it.devs)+1 > cfg.Bound {
-				for i := from; i < len(s.Trace); i++ {
+			for i := from; i < len(s.Trace); i++ {
+				c := 1
+				if s.Trace[i].Kind == 'f' {
+					c = 0
+				}
+				if cfg.Bound >= 0 && it.cost+c > cfg.Bound {
 					if s.Trace[i].N > 1 {
 						truncated.Store(true)
-						break
 					}
+					continue
 				}
-			} else {
-				for i := from; i < len(s.Trace); i++ {
-					for alt := 1; alt < s.Trace[i].N; alt++ {
-						nd := make([]vrt.Dev, len(it.devs)+1)
-						copy(nd, it.devs)
-						nd[len(it.devs)] = vrt.Dev{Pos: i, Alt: alt}
-						kids = append(kids, item{nd})
-					}
+				for alt := 1; alt < s.Trace[i].N; alt++ {
+					nd := make([]vrt.Dev, len(it.devs)+1)
+					copy(nd, it.devs)
+					nd[len(it.devs)] = vrt.Dev{Pos: i, Alt: alt}
+					kids = append(kids, item{nd, it.cost + c})
 				}
 			}
 		}
@@ -139,7 +139,7 @@ func Explore(cfg Config, run RunFunc) *Stats {
 		if len(s.Trace) > st.MaxTrace {
 			st.MaxTrace = len(s.Trace)
 		}
-		c := cost(it.devs)
+		c := it.cost
 		for len(st.ExecsByCost) <= c {
 			st.ExecsByCost = append(st.ExecsByCost, 0)
 		}
@@ -174,7 +174,7 @@ func Explore(cfg Config, run RunFunc) *Stats {
 		// depth first, shared LIFO
 		var qmu sync.Mutex
 		cond := sync.NewCond(&qmu)
-		stack := []item{{nil}}
+		stack := []item{{nil, 0}}
 		inflight := 0
 		stop := ""
 		var wg sync.WaitGroup
@@ -218,11 +218,14 @@ func Explore(cfg Config, run RunFunc) *Stats {
 			st.CompletedBound = len(st.ExecsByCost) - 1
 		}
 	} else {
-		level := []item{{nil}}
+		level := []item{{nil, 0}}
 		for k := 0; k <= cfg.Bound && len(level) > 0; k++ {
+			// items of cost k; children reached through free choices stay in this level
+			var qmu sync.Mutex
+			cond := sync.NewCond(&qmu)
+			queue := level
 			var next []item
-			var nmu sync.Mutex
-			var idx atomic.Int64
+			inflight := 0
 			stop := ""
 			var wg sync.WaitGroup
 			for w := 0; w < cfg.Workers; w++ {
@@ -230,20 +233,34 @@ func Explore(cfg Config, run RunFunc) *Stats {
 				go func() {
 					defer wg.Done()
 					for {
-						i := int(idx.Add(1)) - 1
-						if i >= len(level) {
+						qmu.Lock()
+						for len(queue) == 0 && inflight > 0 && stop == "" {
+							cond.Wait()
+						}
+						if stop != "" || (len(queue) == 0 && inflight == 0) {
+							qmu.Unlock()
+							cond.Broadcast()
 							return
 						}
+						it := queue[len(queue)-1]
+						queue = queue[:len(queue)-1]
+						inflight++
+						qmu.Unlock()
+						kids := process(it)
+						qmu.Lock()
+						for _, kd := range kids {
+							if kd.cost == k {
+								queue = append(queue, kd)
+							} else {
+								next = append(next, kd)
+							}
+						}
+						inflight--
 						if c := capped(); c != "" {
-							nmu.Lock()
 							stop = c
-							nmu.Unlock()
-							return
 						}
-						kids := process(level[i])
-						nmu.Lock()
-						next = append(next, kids...)
-						nmu.Unlock()
+						qmu.Unlock()
+						cond.Broadcast()
 					}
 				}()
 			}
